@@ -249,4 +249,84 @@ theorem updateAt_racy :
       (run p Config.init sched).mem CELL = 3 ∧ maxHeights (fun t => [5, 3].getD t 0) 2 = 5 :=
   ⟨[0, 1, 0, 1], by decide⟩
 
+/-! ### Facts: the shape of the current source is the shape the model assumes
+
+`M3d.Gen.ConcFacts` is regenerated from /repo (go/ast) before every build.  The theorems
+below are re-checked against it, so an edit that drops the re-check, moves the `Store` before
+the build, removes a `Lock`, or makes a worker write captured state outside the proved-safe
+classes breaks a proof obligation (the check then searches for a concrete failing schedule
+with the model driver and for a race report / differing answer with the real code). -/
+open M3d.Gen
+
+/-- The thread program all DCL theorems are about *is* the program denoted by `dclShape`. -/
+theorem dcl_model_is_shape (t : Tid) : dclOfShape dclShape t = dclThread t := rfl
+
+/-- `getVertexToFace` in model3d/mesh.go and model2d/mesh.go has exactly the modelled statement
+sequence (atomic load, return-if-set, lock, deferred unlock, atomic load, return-if-set,
+alloc, build into the fresh object only, atomic store, return); `getVertexToFaceOrNil` is a
+single `atomic.Value.Load`; the fields are an `atomic.Value` and a `sync.Mutex`; and no other
+function of mesh.go touches them except `clearVertexToFace` (a documented mutation). -/
+theorem facts_getVertexToFace :
+    ConcFacts.getVertexToFace3d = dclShape ∧ ConcFacts.getVertexToFace2d = dclShape ∧
+    ConcFacts.orNilIsAtomicLoad3d = true ∧ ConcFacts.orNilIsAtomicLoad2d = true ∧
+    ConcFacts.v2fFieldTypes3d = ["v2fCreateLock:sync.Mutex", "vertexToFace:atomic.Value"] ∧
+    ConcFacts.v2fFieldTypes2d = ["v2fCreateLock:sync.Mutex", "vertexToFace:atomic.Value"] ∧
+    ConcFacts.v2fTouchers3d = ["clearVertexToFace", "getVertexToFace", "getVertexToFaceOrNil"] ∧
+    ConcFacts.v2fTouchers2d = ["clearVertexToFace", "getVertexToFace", "getVertexToFaceOrNil"] := by
+  decide
+
+/-- **Every worker closure of the anchored files touches captured state only in proved-safe
+ways**: writes to its own index / own element (`index_partition_race_free`), writes under a
+mutex shared by the workers or in a `ReduceConcurrentMap` reduce function
+(`mutex_reduction_correct`, `updateAt_locked_is_max`), channel operations
+(`chan_each_index_once`), `sync.Map`/`atomic.Value` calls, or a write handed over by a channel
+send.  No unguarded write, no unguarded call of a mutating method. -/
+theorem facts_workers_safe : ConcFacts.workers.all Worker.safe = true := by decide
+
+/-- The worker sites the model instances stand for are all present in the extracted facts
+(so the previous theorem is not vacuous after a refactor that hides them from the extractor). -/
+theorem facts_workers_cover :
+    ([("model3d/mc.go", "MarchingCubesFilter#go1"), ("model3d/mc.go", "mcSearch#ConcurrentMap1"),
+      ("model3d/mc.go", "asyncSolidCache.FetchZ#go1"),
+      ("model3d/dc.go", "DualContouring.populateCorners#ConcurrentMap1"),
+      ("model3d/dc.go", "DualContouring.populateEdges#ReduceConcurrentMap.iter1"),
+      ("model3d/dc.go", "DualContouring.populateCubes#ConcurrentMap1"),
+      ("model3d/dc.go", "DualContouring.appendMesh#ReduceConcurrentMap.reduce1"),
+      ("model2d/rasterize.go", "Rasterizer.RasterizeSolid#ConcurrentMap1"),
+      ("model2d/rasterize.go", "Rasterizer.RasterizeSolidFilter#ConcurrentMap1"),
+      ("render3d/concurrency.go", "mapCoordinates#go1"),
+      ("render3d/ray_renderer.go", "rayRenderer.Render#mapCoordinates1"),
+      ("render3d/raycast.go", "RayCaster.Render#mapCoordinates1"),
+      ("numerical/k_means.go", "KMeans.Iterate#go1"), ("numerical/k_means.go", "KMeans.Assign#ConcurrentMap1"),
+      ("toolbox3d/height_map.go", "HeightMap.AddSpheresSDF#StatefulConcurrentMap.iter1")].all
+      fun s => ConcFacts.workers.any fun w => w.file == s.1 && w.func == s.2) = true := by
+  decide
+
+/-- `KMeans.Iterate` merges into the shared accumulators only under `resultLock`;
+`AddSpheresSDF`'s workers call the height-map mutators only under a mutex shared by all
+workers (the repaired code — the instance `updateAt_locked_is_max` applies, not `updateAt_racy`). -/
+theorem facts_locked_sites :
+    ((ConcFacts.workers.filter fun w => w.func == "KMeans.Iterate#go1" ||
+        w.func == "HeightMap.AddSpheresSDF#StatefulConcurrentMap.iter1").all
+      fun w => !w.effects.isEmpty && w.effects.all (·.kind == .locked)) = true := by
+  decide
+
+/-- `mapCoordinates` creates a channel with room for every pixel, fills it, closes it and only
+then spawns the workers, each of which ranges over the channel and calls back with the received
+index: the `chanInit`/`chanProg` instance. -/
+theorem facts_mapCoordinates :
+    ConcFacts.mapCoordinates =
+      ["makeChan(width*height)", "var", "fill", "close", "var", "spawn", "w:deferDone", "w:newLocal",
+       "w:rangeRecvCall", "wait"] := by
+  decide
+
+/-- `HeightMap.updateAt` is the plain read-compare-write of `updateAtRacy` (bounds check,
+index, `if Data[idx] < height { Data[idx] = height; return true }`, return) without a lock of
+its own — so its concurrent callers must serialise it (`facts_locked_sites`). -/
+theorem facts_updateAt : ConcFacts.updateAt = ["boundsRet", "idx", "readCompareWrite", "ret"] := by decide
+
+/-- `CacheScalarFunc` touches its captured cache only through `sync.Map.Load/Store`. -/
+theorem facts_cacheScalarFunc : ConcFacts.cacheScalarFunc = ["decl:sync.Map", "call:Load", "call:Store"] := by
+  decide
+
 end M3d.C13
